@@ -32,6 +32,12 @@ def _convert_file(
     """
     model_name = pathlib.Path(input_file).stem
 
+    if os.path.exists(output_file) and os.path.samefile(input_file, output_file):
+        raise ValueError(
+            f"The output file {output_file} is the input file itself, which would be "
+            "overwritten. Please choose another output file with -o/--output-file."
+        )
+
     logger.debug(f"Converting {model_name}")
 
     with open(input_file, "rb") as f:
